@@ -67,6 +67,11 @@ def run():
                 cfgs = keep
         else:
             scens = small + list(nc.random_scenarios(rng, 1500, nmax=40))
+    if not chk.args.replay:
+        # every other scenario leaves the switch of the (source, destination)
+        # pair to get_nearest_particles itself (no set_context by the caller)
+        for k, s in enumerate(scens):
+            s['implicit_ctx'] = bool(k % 2)
     by_id = {s['id']: s for s in scens}
     outs = nc.run_driver(chk, scens, cfgs)
     if designs is None:
